@@ -251,9 +251,13 @@ class Network(Cached):
         """
         Return a copy of the network.
         """
-        return Network(adjacency=self.sp_A, directed=self.directed,
-                       node_weights=self.node_weights,
-                       silence_level=self.silence_level)
+        net = Network(adjacency=self.sp_A, directed=self.directed,
+                      node_weights=self.node_weights,
+                      silence_level=self.silence_level)
+        #  Copy link attributes
+        for a in self.graph.es.attributes():
+            net.set_link_attribute(a, self.link_attribute(a))
+        return net
 
     def undirected_copy(self):
         """
